@@ -204,6 +204,22 @@ R18 = {
  "C17": "the global timer notes its expiry before the CAS on the response mark; the xDS conversion carries the header actions and host_rewrite_literal; every route rule type applies the configured path action",
  "C20": "the sds_source of a typed TLS context is replaced by a fresh copy that passed the raw-JSON redactor",
 }
+R19 = {
+ "C01": "the HTTP/2 request header encoder emits every received header value whole",
+ "C03": "nothing on the retry path writes the stored response (a reply installed meanwhile is not wiped)",
+ "C04": "the attribute bag a DSL route evaluates over is made for the lookup (fresh allocation, no pool)",
+ "C06": "the route's plain cluster is built from cluster_name only, never from a weighted entry",
+ "C11": "a request decoded after the goaway frame was sent is still served",
+ "C12": "a listener update rebuilds the tls context manager from the recorded configuration (no skip that ignores the inspector flag)",
+ "C13": "a listener update rebuilds the tls context manager (no skip that ignores the inspector flag); the client's chain is verified in every handshake, never answered from a store",
+ "C14": "nothing on the retry path writes the stored response; on a grpc listener the error a filter's own answer is stored as can never be nil",
+ "C15": "a cluster's load balancer and host set are installed only by its constructor and UpdateHosts",
+ "C16": "the consecutive-result counters are owned by the checker that is created, never fetched from a package-level store",
+ "C17": "setupRetry never refuses after it withdrew the current attempt",
+ "C18": "a body writer parks only while the stream's send window is not positive (no minimum fragment)",
+ "C19": "producing the redacted dump writes only memory the redactor allocated, also below the first level of a copied map",
+ "C20": "v2.TLSConfig is decoded by its struct tags only (no custom decoder accepting names the raw redactor does not know); a one-level copy is not handed to a nested writer",
+}
 GENERIC = "generic hygiene over the property's packages: no loop-variable address escapes its iteration, every mutex acquired in a function is released on every path to its return and not re-acquired in a callee, a field accessed through sync/atomic is never accessed plainly outside construction (frozen exceptions), storage given back to a pool is not returned or stored, no append onto a loop-invariant slice whose result is kept, no signed remainder of a converted unsigned 64-bit value or of a wrapping signed 32-bit counter, no remainder of a 32-bit sum with an unreduced atomic counter, a receiver field a method rewrites is not retained by what the method hands it to, a key looked up in a map field under a mutex and inserted when absent is inserted in the same critical section"
 props = [json.loads(l)['id'] for l in open('/verif/properties.jsonl')]
 checks, na = [], []
@@ -229,6 +245,8 @@ for p in props:
         dec = dec + "; " + R17[p]
     if p in R18:
         dec = dec + "; " + R18[p]
+    if p in R19:
+        dec = dec + "; " + R19[p]
     dec = dec + "; " + GENERIC
     tech = tech + ", lock-balance and atomic-discipline dataflow"
     if p in R8:
